@@ -362,3 +362,45 @@ def rule_guard_table(ctx, body, key, involves, leaf_for, samples, expect_diverge
     ctx.ob(rule, key, not bad, body.where(start, "term"),
            "the precondition check lets every argument of the property's range through (%d sample points at and between its bounds)" % len(samples) if not bad else
            "the precondition check decides wrongly: " + "; ".join(bad[:3]), what=what or "precondition check rejects valid arguments or admits invalid ones")
+
+
+
+def success_paths_under(body, leaf, max_states=4000):
+    """every (definition of the return place, blocks passed) with which `body` can return when the switches that depend on the
+    sampled quantities are decided by `leaf` (integer switches on a sampled value included) and every other switch is explored
+    both ways; loops are cut at the first revisit.  Only the extracted CFG is walked."""
+    out = []
+    seen = set()
+    stack = [(0, None, (0,))]
+    while stack and len(seen) < max_states:
+        bb, last, path = stack.pop()
+        if (bb, last) in seen:
+            continue
+        seen.add((bb, last))
+        blk = body.blocks[bb]
+        for si, s_ in enumerate(blk["stmts"]):
+            if s_["k"] == "assign" and s_["dst"]["l"] == 0 and not s_["dst"]["p"]:
+                last = (bb, si)
+        t = blk["term"]
+        k = t["k"]
+        if k == "return":
+            out.append((last, path))
+            continue
+        if k == "call" and t["dst"]["l"] == 0 and not t["dst"]["p"]:
+            last = (bb, "term")
+        if k == "switch":
+            de = body.switch_discr_expr(bb)
+            v = eval_cond(de, leaf)
+            if v is None:
+                nv = num_value(de, leaf)
+                v = nv if isinstance(nv, int) and not isinstance(nv, bool) else None
+            if v is not None:
+                tgt = t["otherwise"]
+                for val, tg in t["arms"]:
+                    if val == int(v):
+                        tgt = tg
+                stack.append((tgt, last, path + (tgt,)))
+                continue
+        for s2 in body.succ(bb):
+            stack.append((s2, last, path + (s2,)))
+    return out
